@@ -317,6 +317,10 @@ def hostile_config(rng):
     return {'dec': dec, 'thou': thou, 'digits': digits, 'rm': rng.random() < 0.5, 'round': rng.random() < 0.8, 'tz': tz}
 
 
+def BUILTIN_FAMILIES():
+    return [t['name'] for t in lex.config()['types']]
+
+
 def config_ops(cfg, c=0, seg=True):
     """The full set of setter ops that puts calculator `c` into configuration cfg."""
     ops = [
@@ -333,6 +337,9 @@ def config_ops(cfg, c=0, seg=True):
         for lang in ('en', 'tr'):
             ops.append({'op': 'add_rule', 'c': c, 'lang': lang, 'patterns': ['xyzzy {NUMBER:q}', '{NUMBER:q} xyzzy'], 'spec': {'name': 'noise', 'kind': 'const', 'value': 1}})
             ops.append({'op': 'delete_rule', 'c': c, 'lang': lang, 'name': 'noise'})
+        # ... and a unit family is registered under the name of each built-in family (rejected: the name is taken; no change, C18)
+        for name in BUILTIN_FAMILIES():
+            ops.append({'op': 'add_type', 'c': c, 'name': name})
     if cfg.get('thou_first'):
         # the same configuration reached by calling the two separator setters in the other order
         ops[0], ops[1] = ops[1], ops[0]
